@@ -5,6 +5,7 @@ import (
 	"go/ast"
 	"go/token"
 	"go/types"
+	"os"
 	"strconv"
 	"strings"
 
@@ -108,6 +109,7 @@ R07.6 the selection options (all, include/exclude regexes, exclude-subpkg-regex,
 	ruleR072(c, r)
 	ruleR073(c, r)
 	ruleR075(c, r, "R07.5")
+	ruleExcludeSubpkg(c, r, "R07.5")
 }
 
 func ruleR071(c *Ctx, r *Repo) {
@@ -369,6 +371,46 @@ func ruleR072(c *Ctx, r *Repo) {
 	}
 	if nApp == 0 {
 		c.Fail("R07.2", "ParsePackages|no-append", r.Pos(rs.Pos()), "no path appends a candidate interface")
+	}
+	// a declined candidate, file or package hands over to the next one: the scan is never cut short by it
+	// (mechanical-mutation finding: continue -> break in any of the three loops went unnoticed)
+	for _, p := range d.paths {
+		if hasStep(p, "builtin.append(") > 0 {
+			continue
+		}
+		okExit := p.Exit == "continue" || p.Exit == "end" || p.Exit == "panic" || p.Exit == "return" && len(p.Ret) > 0 && p.Ret[len(p.Ret)-1] != "nil"
+		c.Check(okExit, "R07.2", "ParsePackages|declined-continues", r.Pos(rs.Pos()), "a declined candidate hands over to the next", "a candidate that is not appended ends the scan of its file ("+p.Exit+"): the interfaces declared after it are never found: "+p.String())
+	}
+	for _, g := range withCallees(ip, pp) {
+		if g != pp && !pkgUnexportedHas(ip, g) {
+			continue
+		}
+		var stack []ast.Node
+		ast.Inspect(g.Body, func(n ast.Node) bool {
+			if n == nil {
+				stack = stack[:len(stack)-1]
+				return true
+			}
+			stack = append(stack, n)
+			br, ok := n.(*ast.BranchStmt)
+			if !ok || br.Tok != token.BREAK {
+				return true
+			}
+			for i := len(stack) - 2; i >= 0; i-- {
+				switch stack[i].(type) {
+				case *ast.SwitchStmt, *ast.TypeSwitchStmt, *ast.SelectStmt:
+					if br.Label == nil {
+						return true
+					}
+				case *ast.RangeStmt, *ast.ForStmt:
+					c.Fail("R07.2", "ParsePackages|scan-cut-short", r.Pos(br.Pos()), "a `break` leaves one of the loops over packages, files or candidates in "+g.Name.Name+": everything after the element at hand is never scanned")
+					return true
+				case *ast.FuncLit:
+					return true
+				}
+			}
+			return true
+		})
 	}
 	// NodeVisitor: collected type-expression kinds
 	visit := FuncDecl(ip, "NodeVisitor.Visit")
@@ -1296,4 +1338,283 @@ func enumerateFollowUnexported(p *packages.Package, fd *ast.FuncDecl) []*dtPath 
 	d.paths = nil
 	d.stmts(seedEnv(d, fd), fd.Body.List, func(q *dtPath) { d.finish(q, "end") })
 	return d.paths
+}
+
+// ruleExcludeSubpkg (R07.5, added after a mechanical-mutation sweep showed that nothing read the body of
+// Config.ShouldExcludeSubpkg or the condition under which a package is entered into the recursive list):
+// the exclusion test answers true exactly for a path that one of the configured expressions matches, and
+// a package is expanded exactly when its effective `recursive` is true.
+func ruleExcludeSubpkg(c *Ctx, r *Repo, rule string) {
+	cp := r.Pkg("config")
+	info := cp.TypesInfo
+	fd := FuncDecl(cp, "Config.ShouldExcludeSubpkg")
+	if fd == nil {
+		c.Fail(rule, "ShouldExcludeSubpkg|missing", "config/config.go", "Config.ShouldExcludeSubpkg not found")
+		return
+	}
+	c.Func(funcKey(cp, fd))
+	// the loop whose body asks regexp for a match: in the function or in a function of the package it calls
+	var host *ast.FuncDecl
+	var loop *ast.RangeStmt
+	nLoops := 0
+	for _, g := range withCallees(cp, fd) {
+		ast.Inspect(g.Body, func(n ast.Node) bool {
+			rs, ok := n.(*ast.RangeStmt)
+			if !ok {
+				return true
+			}
+			match := false
+			ast.Inspect(rs.Body, func(m ast.Node) bool {
+				if call, ok := m.(*ast.CallExpr); ok && strings.HasSuffix(calleeName(info, call), "MatchString") {
+					match = true
+				}
+				return true
+			})
+			if match {
+				nLoops++
+				if loop == nil {
+					host, loop = g, rs
+				}
+			}
+			return true
+		})
+	}
+	if loop == nil || nLoops != 1 {
+		c.Fail(rule, "ShouldExcludeSubpkg|loop", r.Pos(fd.Pos()), fmt.Sprintf("expected one loop over the configured expressions that asks regexp for a match, found %d", nLoops))
+		return
+	}
+	d := newDTP(cp, host)
+	start := d.envBefore(seedEnv(d, host), host.Body.List, loop)
+	if v, ok := loop.Value.(*ast.Ident); ok && info.Defs[v] != nil {
+		start.env[info.Defs[v]] = "RX"
+	}
+	// what is ranged over, and the subject: seen from ShouldExcludeSubpkg itself
+	rangedOK, subjectOK := false, false
+	fcHost := newFuncCanonG(cp, host)
+	ranged := fcHost.E(loop.X)
+	subjectOf := func(p *dtPath) (pat, subj string, found bool) {
+		// read off the atom that carries regexp's answer (calls in condition position are not steps)
+		for _, a := range p.Atoms {
+			e := a.Expr
+			i := strings.LastIndex(e, "MatchString")
+			if i < 0 {
+				continue
+			}
+			j := strings.Index(e[i:], "(")
+			// skip the resolved-name annotation "<(regexp.Regexp).MatchString>"
+			if k := strings.Index(e[i:], ">("); k >= 0 {
+				j = k + 1
+			}
+			if j < 0 {
+				continue
+			}
+			open := i + j
+			depth, end := 0, -1
+			for q := open; q < len(e); q++ {
+				if e[q] == '(' {
+					depth++
+				} else if e[q] == ')' {
+					depth--
+					if depth == 0 {
+						end = q
+						break
+					}
+				}
+			}
+			if end < 0 {
+				continue
+			}
+			args := splitTopLevel(e[open+1 : end])
+			head := e[:i]
+			if k := strings.Index(head, "<"); k >= 0 && strings.HasSuffix(strings.TrimSpace(head), "<") {
+				head = head[:k]
+			}
+			switch {
+			case strings.HasSuffix(head, "regexp.") && !strings.HasSuffix(head, ").") && len(args) == 2:
+				return args[0], args[1], true
+			case len(args) == 1:
+				return head, args[0], true
+			}
+		}
+		return "", "", false
+	}
+	d.paths = nil
+	d.stmts(start, loop.Body.List, func(p *dtPath) { d.finish(p, "end") })
+	subj := ""
+	nMatchPaths := 0
+	for _, p := range d.paths {
+		pat, s, found := subjectOf(p)
+		if os.Getenv("MVCHECK_DEBUG") != "" {
+			fmt.Fprintf(os.Stderr, "excl path %s calls=%v steps=%v\n", p.String(), p.Calls, p.Steps)
+		}
+		errSeen, errNil, matchSeen, matchVal := false, false, false, false
+		for _, a := range p.Atoms {
+			switch {
+			case strings.HasSuffix(a.Expr, "#1 == nil") && (strings.Contains(a.Expr, "regexp.")):
+				errSeen, errNil = true, a.Val
+			case strings.Contains(a.Expr, "MatchString") && !strings.Contains(a.Expr, "== nil"):
+				matchSeen, matchVal = true, a.Val
+			default:
+				c.Fail(rule, "ShouldExcludeSubpkg|condition", r.Pos(loop.Pos()), "the loop over the exclusion expressions decides on something other than regexp's answer: "+a.Expr)
+			}
+		}
+		if !found {
+			if errSeen && !errNil {
+				// a compile error path before the match
+				c.Check(p.Exit == "return" && len(p.Ret) > 0 && p.Ret[len(p.Ret)-1] != "nil", rule, "ShouldExcludeSubpkg|error", r.Pos(loop.Pos()), "an invalid expression is reported", "an invalid exclusion expression is not reported: "+p.String())
+				continue
+			}
+			c.Fail(rule, "ShouldExcludeSubpkg|no-match-call", r.Pos(loop.Pos()), "a path through the loop over the exclusion expressions asks regexp nothing: "+p.String())
+			continue
+		}
+		c.Check(strings.Contains(pat, "RX") && !strings.Contains(s, "RX"), rule, "ShouldExcludeSubpkg|arguments", r.Pos(loop.Pos()), "the configured expression is the pattern, the path the subject", fmt.Sprintf("regexp is asked with pattern %s and subject %s: the configured expression must be the pattern and the package path the subject", pat, s))
+		subj = s
+		switch {
+		case errSeen && !errNil:
+			c.Check(p.Exit == "return" && len(p.Ret) > 0 && p.Ret[len(p.Ret)-1] != "nil", rule, "ShouldExcludeSubpkg|error", r.Pos(loop.Pos()), "an invalid expression is reported", "an invalid exclusion expression is not reported: "+p.String())
+		case matchSeen && matchVal:
+			nMatchPaths++
+			c.Check(p.Exit == "return" && len(p.Ret) > 0 && p.Ret[0] == "true" && (len(p.Ret) == 1 || p.Ret[len(p.Ret)-1] == "nil"), rule, "ShouldExcludeSubpkg|matched", r.Pos(loop.Pos()), "a matching expression excludes the path", "a path that an exclusion expression matches is not reported as excluded: "+p.String())
+		case matchSeen && !matchVal:
+			c.Check(p.Exit != "return" && p.Exit != "break", rule, "ShouldExcludeSubpkg|unmatched", r.Pos(loop.Pos()), "a non-matching expression leaves the decision to the following ones", "an exclusion expression that does not match ends the search: "+p.String())
+		default:
+			// match result returned or stored without a branch: not a recognised shape
+			c.Fail(rule, "ShouldExcludeSubpkg|shape", r.Pos(loop.Pos()), "regexp's answer is not branched on in the loop: "+p.String())
+		}
+	}
+	c.Check(nMatchPaths > 0, rule, "ShouldExcludeSubpkg|some-match", r.Pos(loop.Pos()), "a match path exists", "no path of the loop reports a match")
+	// after the loop: not excluded
+	hp, _ := enumerateFuncP(cp, host)
+	okTail := len(hp) > 0
+	for _, p := range hp {
+		if p.Exit != "return" || len(p.Ret) == 0 {
+			okTail = false
+			continue
+		}
+		// paths of the host outside the loop (the loop is an opaque step): those that passed the loop return false
+		if hasStep(p, "loop") > 0 || true {
+			if p.Ret[0] != "false" && !(len(p.Ret) > 1 && p.Ret[len(p.Ret)-1] != "nil") {
+				okTail = false
+			}
+		}
+	}
+	c.Check(okTail, rule, "ShouldExcludeSubpkg|default", r.Pos(host.Pos()), "no expression matched: not excluded", "when no exclusion expression matches the path is still reported as excluded (or nothing is returned)")
+	if host == fd {
+		rangedOK = ranged == "RECV.ExcludeSubpkgRegex"
+		subjectOK = subj == "ARG0"
+	} else {
+		// the caller hands the helper its own list and its own argument
+		hostFn := info.Defs[host.Name]
+		ast.Inspect(fd.Body, func(n ast.Node) bool {
+			call, ok := n.(*ast.CallExpr)
+			if !ok || calleeFunc(info, call) == nil || calleeFunc(info, call) != hostFn {
+				return true
+			}
+			fc := newFuncCanonG(cp, fd)
+			hd := seedEnv(newDT(info), host)
+			inv := map[string]string{}
+			i := 0
+			for _, f := range host.Type.Params.List {
+				for range f.Names {
+					if i < len(call.Args) {
+						inv[fmt.Sprintf("ARG%d", i)] = fc.E(call.Args[i])
+					}
+					i++
+				}
+			}
+			_ = hd
+			if v, ok := inv[ranged]; ok && v == "RECV.ExcludeSubpkgRegex" {
+				rangedOK = true
+			}
+			if v, ok := inv[subj]; ok && v == "ARG0" {
+				subjectOK = true
+			}
+			return true
+		})
+	}
+	c.Check(rangedOK, rule, "ShouldExcludeSubpkg|list", r.Pos(loop.Pos()), "every configured expression is consulted", "the loop does not range over the receiver's exclude-subpkg-regex list (it ranges over "+ranged+")")
+	c.Check(subjectOK, rule, "ShouldExcludeSubpkg|subject", r.Pos(loop.Pos()), "the package path is the subject", "the subject handed to regexp ("+subj+") is not the package path the caller asked about")
+
+	// a package is expanded iff its effective `recursive` is true
+	init := FuncDecl(cp, "RootConfig.Initialize")
+	if init == nil {
+		return
+	}
+	found := false
+	for _, g := range withCallees(cp, init) {
+		ast.Inspect(g.Body, func(n ast.Node) bool {
+			rs, ok := n.(*ast.RangeStmt)
+			if !ok || !strings.Contains(newFuncCanonG(cp, g).E(rs.X), "RECV.Packages") && !typeIs(info.TypeOf(rs.X), "map[string]*config.PackageConfig") {
+				return true
+			}
+			dd := newDTP(cp, g)
+			st := dd.envBefore(seedEnv(dd, g), g.Body.List, rs)
+			if k, ok := rs.Key.(*ast.Ident); ok && info.Defs[k] != nil {
+				st.env[info.Defs[k]] = "PKGNAME"
+			}
+			if v, ok := rs.Value.(*ast.Ident); ok && info.Defs[v] != nil {
+				st.env[info.Defs[v]] = "PKGCFG"
+			}
+			dd.paths = nil
+			dd.stmts(st, rs.Body.List, func(p *dtPath) { dd.finish(p, "end") })
+			for _, p := range dd.paths {
+				rec, hasRec := false, false
+				for _, a := range p.Atoms {
+					if strings.HasSuffix(a.Expr, ".Config.Recursive") && strings.HasPrefix(a.Expr, "*") {
+						rec, hasRec = a.Val, true
+					}
+				}
+				collects := false
+				for _, s := range p.Steps {
+					if strings.Contains(s, "builtin.append(") && strings.Contains(s, "PKGNAME") {
+						collects = true
+					}
+				}
+				if !hasRec && !collects {
+					continue
+				}
+				found = true
+				if collects {
+					c.Check(hasRec && rec, rule, "Initialize|recursive-collected", r.Pos(rs.Pos()), "only recursive packages are expanded", "a package is entered into the list of recursive packages on a path where its `recursive` setting is not true: "+p.String())
+				} else if hasRec && rec && p.Exit == "end" {
+					c.Fail(rule, "Initialize|recursive-collected", r.Pos(rs.Pos()), "a package whose `recursive` setting is true is not entered into the list of recursive packages: "+p.String())
+				}
+			}
+			return true
+		})
+	}
+	c.Check(found, rule, "Initialize|recursive-collection", r.Pos(init.Pos()), "the recursive list is built from the packages' `recursive` setting", "no loop over the configured packages collects the recursive ones under a test of their `recursive` setting")
+}
+
+// splitTopLevel splits a canonical argument list at its top-level commas.
+func splitTopLevel(s string) []string {
+	var out []string
+	depth, last := 0, 0
+	for i := 0; i < len(s); i++ {
+		switch s[i] {
+		case '(', '[', '{':
+			depth++
+		case ')', ']', '}':
+			depth--
+		case ',':
+			if depth == 0 {
+				out = append(out, strings.TrimSpace(s[last:i]))
+				last = i + 1
+			}
+		}
+	}
+	if strings.TrimSpace(s[last:]) != "" {
+		out = append(out, strings.TrimSpace(s[last:]))
+	}
+	return out
+}
+
+// pkgUnexportedHas: is g one of the package's unexported functions?
+func pkgUnexportedHas(p *packages.Package, g *ast.FuncDecl) bool {
+	for _, fd := range pkgUnexported(p) {
+		if fd == g {
+			return true
+		}
+	}
+	return false
 }
